@@ -7,8 +7,8 @@ SURVIVOR: either equivalent, or a place where the contracts do not pin the code 
 Usage: mutate.py [file-filter-regexp] [max-per-file]; report: selftest/mutation_report.json"""
 import re, os, sys, subprocess, shutil, tempfile, json
 REPO='/repo'; GOWP=os.environ.get('GOWP','/verif/bin/gowp')
-files=['vtable_common.go','open.go','key.go','row.go','kv/kv.go','kv/crypto.go','kv/crdt/crdt.go','kv/internal/crdt/crdt.go','sqlite/vtable.go','sqlite/s3db_changes.go','sqlite/s3db_conn.go','sqlite/s3db_refresh.go','sqlite/s3db_version.go','sqlite/vacuum.go','writetime/writetime.go']
-pkgof={'':'github.com/jrhy/s3db','kv':'github.com/jrhy/s3db/kv','kv/crdt':'github.com/jrhy/s3db/kv/crdt','kv/internal/crdt':'github.com/jrhy/s3db/kv/internal/crdt','sqlite':'github.com/jrhy/s3db/sqlite','writetime':'github.com/jrhy/s3db/writetime'}
+files=['vtable_common.go','open.go','key.go','row.go','kv/kv.go','kv/crypto.go','kv/crdt/crdt.go','kv/internal/crdt/crdt.go','sqlite/vtable.go','sqlite/s3db_changes.go','sqlite/s3db_conn.go','sqlite/s3db_refresh.go','sqlite/s3db_version.go','sqlite/vacuum.go','writetime/context.go','kv/crdt/value.go','internal/unquote.go','kv/encode_gob.go']
+pkgof={'':'github.com/jrhy/s3db','kv':'github.com/jrhy/s3db/kv','kv/crdt':'github.com/jrhy/s3db/kv/crdt','kv/internal/crdt':'github.com/jrhy/s3db/kv/internal/crdt','sqlite':'github.com/jrhy/s3db/sqlite','writetime':'github.com/jrhy/s3db/writetime','internal':'github.com/jrhy/s3db/internal'}
 flt=re.compile(sys.argv[1]) if len(sys.argv)>1 else None
 contracted={}
 for d in pkgof:
